@@ -365,4 +365,90 @@ example : readField true { total := 10, memory := 5, field := some 4 } [2, 2] =
     ({ total := 6, memory := 1, field := some 0 }, true) := by decide
 example : (readField true { total := 10, memory := 5, field := some 4 } [2, 3]).2 = false := by decide
 
+/-- **C12_mp_form_iff**: the whole `MultipartForm` extraction (no denied duplicate) succeeds iff
+the sum of *all* field bytes is within the total budget, the sum of the bytes of the fields read
+into memory is within the memory budget, and for every name with a declared per-field limit the
+sum over *all* fields of that name (the budget is shared by name) is within it. -/
+theorem C12_mp_form_iff (limitOf : String → Option Nat) (total memory : Nat) (fs : List Field)
+    (hnd : ∀ f ∈ fs, f.kind ≠ .deny) :
+    (multipartForm limitOf total memory fs).1 = .ok ↔
+      sumAll fs ≤ total ∧ sumMem fs ≤ memory ∧
+      ∀ name L, limitOf name = some L → sumName name fs ≤ L := by
+  unfold multipartForm
+  rw [formLoop_ok_iff limitOf fs hnd]
+  simp [FormFits, rem, flGet]
+
+example : (multipartForm (fun n => if n = "a" then some 16 else none) 100 50
+    [⟨"a", .memory, [10]⟩, ⟨"a", .memory, [3, 3]⟩, ⟨"b", .file, [60]⟩]).1 = .ok := by decide
+example : (multipartForm (fun n => if n = "a" then some 16 else none) 100 50
+    [⟨"a", .memory, [10]⟩, ⟨"a", .memory, [3, 4]⟩]).1 = .overflow 1 := by decide
+
+/-- the part of a field the budgets can see: name, how it is handled, total size -/
+def fieldSig (f : Field) : String × FieldKind × Nat := (f.name, f.kind, fieldSum f)
+
+theorem sums_congr (fs : List Field) : ∀ fs' : List Field, fs.map fieldSig = fs'.map fieldSig →
+    sumAll fs = sumAll fs' ∧ sumMem fs = sumMem fs' ∧ (∀ name, sumName name fs = sumName name fs') ∧
+    ((∀ f ∈ fs, f.kind ≠ .deny) ↔ (∀ f ∈ fs', f.kind ≠ .deny)) := by
+  induction fs with
+  | nil =>
+    intro fs' h
+    cases fs' with
+    | nil => simp
+    | cons g r => simp at h
+  | cons f rest ih =>
+    intro fs' h
+    cases fs' with
+    | nil => simp at h
+    | cons g r =>
+      simp only [List.map_cons, List.cons.injEq, fieldSig, Prod.mk.injEq] at h
+      obtain ⟨⟨hn, hk, hs⟩, hr⟩ := h
+      obtain ⟨i1, i2, i3, i4⟩ := ih r hr
+      refine ⟨by simp [sumAll, hs, i1], by simp [sumMem, hs, hk, i2], ?_, ?_⟩
+      · intro name; simp [sumName, hn, hs, i3 name]
+      · simp only [List.mem_cons, forall_eq_or_imp, hk, i4]
+
+/-- **C12_mp_form_chunking_independent**: however the multipart parser cuts the fields' data into
+chunks, the form is accepted or refused alike. -/
+theorem C12_mp_form_chunking_independent (limitOf : String → Option Nat) (total memory : Nat)
+    (fs fs' : List Field) (h : fs.map fieldSig = fs'.map fieldSig) (hnd : ∀ f ∈ fs, f.kind ≠ .deny) :
+    ((multipartForm limitOf total memory fs).1 = .ok ↔ (multipartForm limitOf total memory fs').1 = .ok) := by
+  obtain ⟨i1, i2, i3, i4⟩ := sums_congr fs fs' h
+  rw [C12_mp_form_iff limitOf total memory fs hnd, C12_mp_form_iff limitOf total memory fs' (i4.mp hnd),
+    i1, i2]
+  simp only [i3]
+
+example : [(⟨"a", .memory, [1, 2, 3]⟩ : Field)].map fieldSig = [(⟨"a", .memory, [6]⟩ : Field)].map fieldSig := by decide
+
+/-! ## 6. `Field::bytes(limit)` -/
+
+/-- **C12_field_bytes_spec**: `Field::bytes` returns the data iff it is within the limit,
+`LimitExceeded` otherwise; a stream error wins over both. -/
+theorem C12_field_bytes_spec (limit : Nat) (items : List Item) :
+    fieldBytes limit items =
+      if hasErr items then .streamErr
+      else if (bytesBeforeErr items).length ≤ limit then .ok (bytesBeforeErr items)
+      else .limitExceeded := by
+  have := fieldBytesFrom_spec limit items [] (by simp)
+  simpa [fieldBytes] using this
+
+/-- **C12_field_bytes_chunking_independent** -/
+theorem C12_field_bytes_chunking_independent (limit : Nat) (items items' : List Item)
+    (hb : bytesBeforeErr items = bytesBeforeErr items') (he : hasErr items = hasErr items') :
+    fieldBytes limit items = fieldBytes limit items' := by
+  rw [C12_field_bytes_spec, C12_field_bytes_spec, hb, he]
+
+/-- **C12_field_bytes_buffer_bound**: at every step the buffer is within the limit (it is freed
+when the limit is exceeded; the rest of the field is drained chunk by chunk). -/
+theorem C12_field_bytes_buffer_bound (limit : Nat) (pre : List Item) :
+    (fbRun limit { buf := [], exceeded := false } pre).buf.length ≤ limit :=
+  fbRun_inv limit pre _ (by simp)
+
+example : fieldBytes 3 (chunks [[1, 2], [3, 4], [5]]) = .limitExceeded := by decide
+example : fieldBytes 3 (chunks [[1, 2], [3]]) = .ok [1, 2, 3] := by decide
+
+/-- **C12_decoder_no_empty_chunks**: the content decoder never hands the extractor an empty chunk. -/
+theorem C12_decoder_no_empty_chunks {σ : Type} (c : Codec σ) (s : σ) (items : List Item) (b : Bytes)
+    (h : Item.chunk b ∈ decodeItems c s items) : b ≠ [] :=
+  decodeItems_nonempty c items s b h
+
 end ActixModel.Collect.C12
